@@ -11,12 +11,17 @@ Oracles (implementation alone, written from the property statement and the DBus 
   * argument counting: nargs / nret / signal nargs = number of complete types of that parse;
   * inference on values built from bool, int, float, str, bytearray, wrappers, list, tuple, dict: the result is
     one complete type; a wrapper instance selects exactly its DBus type (table WRAPPER_SIG from the class docs);
-  * variant round trip for values INSIDE the claim (`expect`): marshal('v', [v]) then unmarshal gives a value
-    equal (Python ==) to v after the documented normalisation (tuple -> list, bytearray -> list of ints),
-    consuming exactly the bytes produced.  `expect` raises Outside for everything the statement leaves out:
-    containers whose elements share a Python class but not a DBus type, scalars that do not fit the type they
-    travel under, empty tuples (DBus has no empty struct), dict keys of more than one DBus type (DBus has no
-    variant keys), NaN (NaN != NaN), strings DBus cannot carry (NUL, invalid object path / signature).
+  * variant round trip for values INSIDE the claim (`expect`): marshal('v', [v], offset, endianness) then
+    unmarshal at the same offset gives a value equal (Python ==) to v after the documented normalisation
+    (tuple -> list, bytearray -> list of ints), in both byte orders and at start offsets 0..7.
+    `expect` raises Outside for everything the statement leaves out: containers whose elements have the same
+    Python class but where a later element does not conform to the first element's DBus type, values without
+    a DBus type (scalars beyond 64 bits, empty tuples, container dict keys), dict keys of more than one DBus
+    type (DBus has no variant keys), NaN (NaN != NaN), strings DBus cannot carry (NUL, invalid object path /
+    signature).  Elements of DIFFERENT Python classes (subclasses included) are inside: they must travel as
+    variants (ruling on review item 2, fixes/C19-02).
+  * exceptions on malformed signatures and on values without a DBus type are compared only as "raises":
+    which exception class (and how many pieces a lazy consumer saw first) is not part of the property.
 """
 import json
 import re
@@ -27,9 +32,10 @@ STREAMS = ['split-enumerated', 'split-random', 'split-malformed', 'argcount', 'i
 THEOREMS = ['split_render', 'split_render_lazy', 'split_first', 'split_concat', 'split_each_complete',
             'split_count', 'render_injective', 'decomposition_unique', 'split_agrees_with_grammar',
             'argcount_eq_types', 'infer_single_complete_type', 'infer_splits_into_one', 'infer_fails_iff',
-            'infer_total_on_builtin', 'infer_valid_type', 'wrapper_selects_type',
-            'wrapper_table_matches_source', 'int_rule_matches_source', 'plain_int_rule',
+            'infer_valid_type', 'no_type_no_signature', 'wrapper_selects_type',
+            'wrapper_table_matches_source', 'int_rule_matches_source', 'probes_match_model', 'plain_int_rule',
             'prefix_model_f28_infers_i', 'prefix_model_dict_value_from_last',
+            'prefix_model_subclass_under_base_type', 'prefix_model_invalid_signatures',
             'variant_roundtrip_partial', 'prefix_inferred_types_do_not_fit']
 TRUSTED_BASE = [
     'Python semantics mirrored by hand in Sig/Split.lean and Wire/Infer.lean (generators and PEP 479, slices, '
@@ -282,15 +288,27 @@ def wrapper_name(v):
     return n if n in WRAPPER_SIG and type(v).__module__ == 'txdbus.marshal' else None
 
 
+
+def py_class(v):
+    """The builtin class a value counts as for inference (subclasses included), or None."""
+    if wrapper_name(v):
+        return 'wrapper'
+    for name, k in (('bool', bool), ('int', int), ('float', float), ('str', str), ('bytearray', bytearray),
+                    ('list', list), ('tuple', tuple), ('dict', dict)):
+        if isinstance(v, k):
+            return name
+    return None
+
+
 def natural_sig(v):
-    """The DBus type a value has by itself (None: none).  First-element based, as upstream documents."""
-    t = type(v)
-    w = wrapper_name(v)
-    if w:
-        return WRAPPER_SIG[w]
-    if t is bool:
+    """The DBus type a value has by itself (None: it has none).  First-element based, as upstream documents;
+    a container whose elements do not all have exactly the class of the first one carries variants."""
+    c = py_class(v)
+    if c == 'wrapper':
+        return WRAPPER_SIG[wrapper_name(v)]
+    if c == 'bool':
         return 'b'
-    if t is int:
+    if c == 'int':
         if -2 ** 31 <= v < 2 ** 31:
             return 'i'
         if -2 ** 63 <= v < 2 ** 63:
@@ -298,36 +316,37 @@ def natural_sig(v):
         if 2 ** 63 <= v < 2 ** 64:
             return 't'
         return None
-    if t is float:
+    if c == 'float':
         return 'd'
-    if t is str:
+    if c == 'str':
         return 's'
-    if t is bytearray:
+    if c == 'bytearray':
         return 'ay'
-    if t is list:
-        if not v:
+    if c == 'list':
+        if not len(v):
             return 'av'
-        if any(not isinstance(e, type(v[0])) for e in v[1:]):
+        if any(type(e) is not type(v[0]) for e in v[1:]):
             return 'av'
         e = natural_sig(v[0])
         return None if e is None else 'a' + e
-    if t is tuple:
-        if not v:
+    if c == 'tuple':
+        if not len(v):
             return None
         parts = [natural_sig(e) for e in v]
         return None if None in parts else '(' + ''.join(parts) + ')'
-    if t is dict:
-        if not v:
+    if c == 'dict':
+        if not len(v):
             return 'a{sv}'
         items = list(v.items())
         k = natural_sig(items[0][0])
         if k is None or k not in BASIC:
             return None
-        if any(not isinstance(x, type(items[0][1])) for _, x in items[1:]):
+        if any(type(x) is not type(items[0][1]) for _, x in items[1:]):
             return 'a{' + k + 'v}'
         e = natural_sig(items[0][1])
         return None if e is None else 'a{' + k + e + '}'
     return None
+
 
 
 def expect(v, sig):
@@ -338,9 +357,11 @@ def expect(v, sig):
         s = natural_sig(v)
         if s is None:
             raise Outside('no DBus type')
+        if len(s) > 255:
+            raise Outside('signature longer than 255')
         return expect(v, s)
     if c in INT_RANGE:
-        if not isinstance(v, int):
+        if not isinstance(v, int) or isinstance(v, bool):
             raise Outside('not an int')
         lo, hi = INT_RANGE[c]
         if not lo <= int(v) < hi:
@@ -353,7 +374,7 @@ def expect(v, sig):
             return bool(v)
         raise Outside('not a boolean')
     if c == 'd':
-        if type(v) is not float or v != v:
+        if not isinstance(v, float) or v != v:
             raise Outside('not a comparable float')
         return v
     if c in 'sog':
@@ -374,7 +395,7 @@ def expect(v, sig):
     if c == 'a':
         esig = sig[1:]
         if esig[0] == '{':
-            if type(v) is not dict:
+            if not isinstance(v, dict):
                 raise Outside('not a dict')
             ksig = esig[1]
             vsig = esig[2:-1]
@@ -383,19 +404,19 @@ def expect(v, sig):
             for k, x in items:
                 if natural_sig(k) != ksig:
                     raise Outside('dict keys of more than one DBus type')
-                out[expect(k, ksig)] = _elem(x, items[0][1], vsig)
+                out[expect(k, ksig)] = expect(x, vsig)
             if len(out) != len(items):
                 raise Outside('keys collide')
             return out
-        if type(v) is bytearray:
+        if isinstance(v, bytearray):
             if esig != 'y':
                 raise Outside('bytearray')
             return list(v)
-        if type(v) is not list:
+        if not isinstance(v, list):
             raise Outside('not a list')
-        return [_elem(e, v[0], esig) for e in v]
+        return [expect(e, esig) for e in v]
     if c == '(':
-        if type(v) is not tuple or not v:
+        if not isinstance(v, tuple) or not len(v):
             raise Outside('not a non-empty tuple')
         parts = parse_all(sig[1:-1])
         if len(parts) != len(v):
@@ -404,19 +425,7 @@ def expect(v, sig):
     raise Outside('type ' + sig)
 
 
-def _elem(e, first, esig):
-    """Element `e` of a container whose first element is `first`, travelling under element type `esig`."""
-    if esig == 'v':
-        return expect(e, 'v')
-    if type(e) is type(first):
-        # same Python class: inside the claim only if it also has the same DBus type
-        if natural_sig(e) != esig:
-            raise Outside('same Python class, different DBus type')
-        return expect(e, esig)
-    # a different Python class that travels as the common base type: scalars only
-    if esig in INT_RANGE or esig == 's':
-        return expect(e, esig)
-    raise Outside('different class under a non-base type')
+
 
 
 def normalise(x):
@@ -435,24 +444,23 @@ def plain_eq(a, b):
     return a == b
 
 
-def roundtrip(marshal, v):
-    """(ok, observed, expected) for a value inside the claim; None when outside."""
+
+def roundtrip(marshal, v, le=True, off=0):
+    """(ok, observed, expected) for a value inside the claim; (None, why, None) when outside."""
     try:
         exp = expect(v, 'v')
     except Outside as o:
         return None, str(o), None
     try:
         sig = marshal.sigFromPy(v)
-        n, chunks = marshal.marshal('v', [v])
+        n, chunks = marshal.marshal('v', [v], off, le)
         data = b''.join(chunks)
-        n2, out = marshal.unmarshal('v', data)
+        n2, out = marshal.unmarshal('v', b'\xaa' * off + data, off, le)
     except Exception as e:
         return False, 'raises %s: %s' % (type(e).__name__, str(e)[:100]), repr(exp)[:200]
     got = out[0] if isinstance(out, list) and len(out) == 1 else out
-    if not (n == len(data) == n2):
-        return False, 'byte counts differ: marshal says %d, %d bytes, unmarshal consumed %d' % (n, len(data), n2), None
     if not plain_eq(got, exp) or not plain_eq(got, normalise(v)):
-        return False, 'sig %s decodes to %r' % (sig, got), repr(exp)[:200]
+        return False, 'sig %s decodes to %s' % (sig, repr(got)[:200]), repr(exp)[:200]
     return True, sig, None
 
 
@@ -473,8 +481,9 @@ def children(v):
     return []
 
 
-def shrink_roundtrip(marshal, v, budget=200):
-    """Smallest sub-value (or two-item sub-dict / shorter list) that still fails the round-trip oracle."""
+
+def shrink_roundtrip(marshal, v, le=True, off=0, budget=400):
+    """Smallest sub-value (or two-item sub-dict / two-element list) that still fails the round-trip oracle."""
     cur = v
     while budget > 0:
         cands = children(cur)
@@ -484,7 +493,7 @@ def shrink_roundtrip(marshal, v, budget=200):
         for c in cands:
             budget -= 1
             try:
-                ok, _, _ = roundtrip(marshal, c)
+                ok, _, _ = roundtrip(marshal, c, le, off)
             except Exception:
                 ok = None
             if ok is False:
@@ -506,23 +515,46 @@ def walk(v):
             yield from walk(x)
 
 
-def classify_roundtrip_failure(marshal, v):
-    for x in walk(v):
-        if type(x) is int and not -2 ** 31 <= x < 2 ** 31:
+
+def _sig_or_none(marshal, v):
+    try:
+        return marshal.sigFromPy(v)
+    except Exception:
+        return None
+
+
+def classify_roundtrip_failure(marshal, v, le=True, off=0):
+    """Key of a (shrunk) failing value.  The three named classes are recognised by an EXACT test on the
+    shrunk value itself; anything else is filed under the generic key - never under a fixed finding."""
+    # F28: a plain int outside int32 that the implementation calls 'i'
+    if type(v) is int and not -2 ** 31 <= v < 2 ** 31 and _sig_or_none(marshal, v) == 'i':
+        return 'int-outside-int32-infers-i'
+    # C19-01: a dict whose signature follows its LAST value: fails as given, passes with the items reversed,
+    # and the implementation's value signature is that of the last value, not of the first
+    if type(v) is dict and len(v) >= 2:
+        items = list(v.items())
+        s_first, s_last = _sig_or_none(marshal, items[0][1]), _sig_or_none(marshal, items[-1][1])
+        s_all = _sig_or_none(marshal, v)
+        if s_first and s_last and s_all and s_first != s_last and s_all.endswith(s_last + '}') \
+                and not s_all.endswith(s_first + '}'):
             try:
-                if marshal.sigFromPy(x) == 'i':
-                    return 'int-outside-int32-infers-i'
+                if roundtrip(marshal, dict(reversed(items)), le, off)[0] is True:
+                    return 'dict-value-signature-from-last-item'
             except Exception:
                 pass
-    for x in walk(v):
-        if type(x) is dict and len(x) >= 2:
-            vals = list(x.values())
-            if all(isinstance(e, type(vals[0])) for e in vals[1:]):
-                try:
-                    if marshal.sigFromPy(vals[-1]) != marshal.sigFromPy(vals[0]):
-                        return 'dict-value-signature-from-last-item'
-                except Exception:
-                    pass
+    # C19-02: a container holding, after its first element, an element of a proper subclass of the first one's
+    # class, which the implementation sends under the type it gives the first element alone
+    elems = mk = None
+    if type(v) is list and len(v) >= 2:
+        elems, mk = v, (lambda a: [a])
+    elif type(v) is dict and len(v) >= 2:
+        k0 = next(iter(v))
+        elems, mk = list(v.values()), (lambda x: {k0: x})
+    if elems is not None:
+        a = elems[0]
+        if any(type(b) is not type(a) and isinstance(b, type(a)) for b in elems[1:]):
+            if _sig_or_none(marshal, v) is not None and _sig_or_none(marshal, v) == _sig_or_none(marshal, mk(a)):
+                return 'subclass-element-under-base-type'
     return 'variant-roundtrip-fails'
 
 
@@ -722,12 +754,147 @@ def fixed_values(m):
         {1: 'a', 2: 'b'}, {True: 'a'}, {1.5: 'a'}, {Y(1): 'a', Y(2): 'b'}, {'k': (1, 2), 'j': (3, 4)},
         {'a': [1, 2], 'b': [3]}, {'a': {'x': 1}, 'b': {'y': 2}}, {'a': 1.5, 'b': 2}, {'x': [1, 'a']},
         [{'a': 1}, {'b': 2}], ({'a': (1, [True])},), [[[[1]]]], {'a': {'b': {'c': [1, (2, 'x')]}}},
+        [1, U64(2 ** 40)], [1, m.Int64(-2 ** 40)], {'a': 1, 'b': U64(2 ** 40)}, [U64(2 ** 40), 1], ['a', SG('i')],
+        (), [()], ((), 1), {(1, 2): 3}, {'a': ()}, [1] * 9 + ['a'], ['a'] + [1] * 20, [1] * 40, list(range(17)) + [2 ** 40],
+        {i: 'v%d' % i for i in range(25)}, {('k%d' % i): (i if i != 19 else 'odd') for i in range(20)},
+        [[[[[[[[1, 'a']]]]]]]], {'a': [{'b': [{'c': [{'d': (1, [2.5])}]}]}]}, float('nan'), [float('nan')],
     ]
+
+
+# =====================================================================================================
+# values outside the line syntax: subclasses of the builtin classes (oracle-only, built from a JSON spec)
+# =====================================================================================================
+import collections
+import enum
+
+
+class _Color(enum.IntEnum):
+    R = 1
+    G = 2
+    B = 70000
+
+
+class _SubList(list):
+    pass
+
+
+class _SubDict(dict):
+    pass
+
+
+_P2 = collections.namedtuple('P2', 'x y')
+_P3 = collections.namedtuple('P3', 'a b c')
+
+
+def build_x(spec):
+    """Value from a JSON-able spec: ['v', line] | ['odict', [[k, v]..]] | ['ddict', ..] | ['sdict', ..] |
+    ['nt', [fields]] | ['enum', 'R'] | ['slist', [elems]] | ['list', [elems]] | ['tuple', [elems]] | ['dict', [[k, v]..]]"""
+    tag = spec[0]
+    if tag == 'v':
+        return vc.from_line(spec[1])
+    if tag in ('odict', 'ddict', 'sdict', 'dict'):
+        items = [(build_x(k), build_x(v)) for k, v in spec[1]]
+        if tag == 'odict':
+            return collections.OrderedDict(items)
+        if tag == 'ddict':
+            d = collections.defaultdict(list)
+            d.update(items)
+            return d
+        return _SubDict(items) if tag == 'sdict' else dict(items)
+    if tag == 'nt':
+        f = [build_x(e) for e in spec[1]]
+        return _P2(*f) if len(f) == 2 else _P3(*f)
+    if tag == 'enum':
+        return _Color[spec[1]]
+    if tag == 'slist':
+        return _SubList(build_x(e) for e in spec[1])
+    if tag == 'list':
+        return [build_x(e) for e in spec[1]]
+    if tag == 'tuple':
+        return tuple(build_x(e) for e in spec[1])
+    raise ValueError(tag)
+
+
+def g_xspec(rng, m, depth):
+    """Spec of a value that uses subclasses of the builtin classes somewhere."""
+    def leaf():
+        return ['v', vc.to_line(g_scalar(rng, m))]
+
+    def keyspec(i):
+        return ['v', vc.to_line('k%d' % i)]
+    r = rng.randrange(9)
+    n = rng.choice([1, 2, 3, 6])
+    sub = (lambda: g_xspec(rng, m, depth - 1)) if depth > 0 and rng.random() < 0.5 else leaf
+    if r == 0:
+        return ['enum', rng.choice('RGB')]
+    if r == 1:
+        return ['nt', [sub() for _ in range(rng.choice([2, 3]))]]
+    if r == 2:
+        return [rng.choice(['odict', 'ddict', 'sdict']), [[keyspec(i), sub()] for i in range(n)]]
+    if r == 3:
+        return ['slist', [sub() for _ in range(n)]]
+    if r == 4:   # homogeneous list of named tuples / enums
+        if rng.random() < 0.5:
+            return ['list', [['nt', [['v', 'i %d' % rng.randint(-9, 9)], ['v', vc.to_line(g_str(rng))]]] for _ in range(n)]]
+        return ['list', [['enum', rng.choice('RGB')] for _ in range(n)]]
+    if r == 5:   # int first, IntEnum later (and the reverse)
+        xs = [['v', 'i %d' % rng.randint(-5, 5)], ['enum', rng.choice('RGB')]]
+        rng.shuffle(xs)
+        return ['list', xs]
+    if r == 6:
+        return ['dict', [[keyspec(i), rng.choice([['enum', 'R'], ['v', 'i 7'], ['nt', [['v', 'i 1'], ['v', 'i 2']]]])]
+                         for i in range(n)]]
+    if r == 7:
+        return ['tuple', [sub(), ['odict', [[keyspec(0), leaf()]]]]]
+    return ['list', [['odict', [[keyspec(0), ['v', 'i %d' % i]]]] for i in range(n)]]
+
+
+def g_big(rng, m):
+    """Containers of 5..40 elements; homogeneous, or with ONE odd element last / in the middle / first."""
+    n = rng.randint(5, 40)
+    kind = rng.randrange(6)
+    base = rng.choice([lambda: rng.randint(-100, 100), lambda: g_str(rng), lambda: rng.random() < 0.5,
+                       lambda: rng.uniform(-9, 9), lambda: m.Byte(rng.randrange(256)),
+                       lambda: (rng.randint(0, 9), g_str(rng)), lambda: [rng.randint(0, 9)] * rng.randrange(3),
+                       lambda: m.UInt64(rng.randrange(2 ** 64))])
+    xs = [base() for _ in range(n)]
+    odd = rng.choice([lambda: 'odd', lambda: 2 ** 40, lambda: True, lambda: m.UInt64(2 ** 40), lambda: 1.5,
+                      lambda: m.ObjectPath('/odd'), lambda: [], lambda: {}, lambda: 7, lambda: m.Int16(-3)])
+    if kind >= 2:
+        pos = {2: n - 1, 3: n // 2, 4: 0, 5: rng.randrange(n)}[kind]
+        xs[pos] = odd()
+    if rng.random() < 0.35:
+        keys = rng.choice([lambda i: 'k%d' % i, lambda i: i, lambda i: m.UInt32(i)])
+        return {keys(i): x for i, x in enumerate(xs)}
+    if rng.random() < 0.15:
+        return tuple(xs[:12])
+    return xs
+
+
+def g_deep(rng, m, depth):
+    """Nesting up to `depth` (<= 8) of single-child containers around a small value."""
+    v = g_any(rng, m, 1, exotic=False)
+    for _ in range(depth):
+        k = rng.randrange(4)
+        if k == 0:
+            v = [v]
+        elif k == 1:
+            v = (v, rng.randint(0, 3))
+        elif k == 2:
+            v = {'k': v}
+        else:
+            v = [v, g_like(rng, m, v, 1, False)]
+    return v
 
 
 # =====================================================================================================
 # streams
 # =====================================================================================================
+def canon_err(x):
+    """Which exception a malformed signature / a typeless value raises is not part of the property."""
+    return 'err' if isinstance(x, str) and x.startswith('err') else x
+
+
 def check_split_oracle(ctx, sig, pieces, observed):
     """S4 on a valid signature: concatenation and one complete type per piece."""
     want = parse_all(sig)
@@ -751,19 +918,39 @@ def run_split(ctx, marshal, stream, sigs, valid):
         ctx.case(stream, sample=s, nontrivial=len(s) > 1)
         ctx.stat('%s:len=%s' % (stream, len(s) if len(s) < 10 else '%d+' % (len(s) // 10 * 10)))
         if not valid:
-            ctx.stat('%s:%s' % (stream, ob.split(' ')[0] + (' ' + ob.split(' ')[1] if ob.startswith('err') else '')))
+            ctx.stat('%s:%s' % (stream, 'ok' if ob.startswith('ok') else 'raises'))
         if out is not None:
-            if out[2 * i] != ob:
+            if canon_err(out[2 * i]) != canon_err(ob):
                 ctx.disagree(stream, {'op': 'split', 'sig': s}, out[2 * i], ob)
-            if out[2 * i + 1] != of:
+            if s and canon_err(out[2 * i + 1]) != canon_err(of):
                 ctx.disagree(stream, {'op': 'first', 'sig': s}, out[2 * i + 1], of)
         if valid:
             check_split_oracle(ctx, s, pieces, ob)
             want = parse_all(s)
-            exp_first = ('ok %s %s' % (vc.str_hex(want[0]), vc.str_hex(s[len(want[0]):]))) if want else 'err StopIteration'
-            if of != exp_first:
-                ctx.violation('split-wrong-decomposition', 'next(genCompleteTypes(%r)) is not the first complete type' % (s,),
-                              inp={'op': 'split', 'sig': s}, observed=of, expected=exp_first)
+            if want:
+                exp_first = 'ok %s %s' % (vc.str_hex(want[0]), vc.str_hex(s[len(want[0]):]))
+                if of != exp_first:
+                    ctx.violation('split-wrong-decomposition',
+                                  'next(genCompleteTypes(%r)) is not the first complete type' % (s,),
+                                  inp={'op': 'split', 'sig': s}, observed=of, expected=exp_first)
+
+
+def obs_nargs_reuse(sig_in, sig_out, sig_sig):
+    """Declarations that are not fresh: the same Method / Signal added twice and to a second interface,
+    and a second Method whose signatures are those of the first one swapped."""
+    from txdbus import interface
+    try:
+        m = interface.Method('M', arguments=sig_in, returns=sig_out)
+        s = interface.Signal('S', sig_sig)
+        i1 = interface.DBusInterface('org.verif.C19a', m, s, noRegister=True)
+        first = [m.nargs, m.nret, s.nargs]
+        i1.addMethod(m)
+        i1.addSignal(s)
+        m2 = interface.Method('N', arguments=sig_out, returns=sig_in)
+        interface.DBusInterface('org.verif.C19b', m, s, m2, noRegister=True)
+        return first, [m.nargs, m.nret, s.nargs], [m2.nret, m2.nargs]
+    except Exception as e:
+        return 'err'
 
 
 def run_argcount(ctx, marshal, triples):
@@ -778,33 +965,46 @@ def run_argcount(ctx, marshal, triples):
         valid = all(_valid(x) for x in t)
         if out is not None:
             mo = out[3 * i:3 * i + 3]
-            if all(x.startswith('ok ') for x in mo):
-                mv = [int(x[3:]) for x in mo]
-            else:
-                mv = 'err ' + [x for x in mo[:2] + mo[2:] if x.startswith('err')][0][4:]
-                # addMethod counts sigIn then sigOut; addSignal runs after addMethod: first error in that order
-            if mv != ob:
+            mv = [int(x[3:]) for x in mo] if all(x.startswith('ok ') for x in mo) else 'err'
+            if mv != canon_err(ob):
                 ctx.disagree('argcount', {'op': 'nargs', 'sigs': list(t)}, mv, ob)
         if valid:
             want = [len(parse_all(x)) for x in t]
-            if ob != want:
-                ctx.violation('argcount-wrong', 'interface.py counts %r arguments for signatures %r' % (ob, list(t)),
-                              inp={'op': 'nargs', 'sigs': list(t)}, observed=ob, expected=want)
+            again = obs_nargs_reuse(*t)
+            if ob != want or again != (want, want, want[:2]):
+                ctx.violation('argcount-wrong', 'interface.py counts %r (re-added / shared / swapped: %r) arguments '
+                              'for signatures %r' % (ob, again, list(t)),
+                              inp={'op': 'nargs', 'sigs': list(t)}, observed=[ob, again], expected=want)
 
 
 def builtin_only(v):
     for x in walk(v):
-        t = type(x)
-        if t in (bool, int, float, str, bytearray, list, tuple, dict):
-            continue
-        if wrapper_name(x):
-            continue
-        return False
+        if py_class(x) is None:
+            return False
     return True
 
 
-def has_empty_tuple(v):
-    return any(type(x) is tuple and not x for x in walk(v))
+def infer_oracle(ctx, marshal, v, ob, inp):
+    """S4 for inference on a value built from the supported classes (`ob` = 'ok <hex>' | 'err <Class>')."""
+    if not builtin_only(v):
+        return
+    nat = natural_sig(v)
+    if ob.startswith('ok '):
+        sig = vc.hex_str(ob[3:])
+        # depth > 32 / length > 255 are limits the statement does not mention: not judged here
+        if len(sig) <= 255 and max_depth(sig) <= 32 and not is_single(sig):
+            ctx.violation('inferred-signature-not-single-complete-type',
+                          'sigFromPy gives %r, which is not one complete type' % (sig,),
+                          inp=inp, observed=sig, expected='one complete type, or an exception')
+        w = wrapper_name(v)
+        if w and sig != WRAPPER_SIG[w]:
+            ctx.violation('wrapper-selects-wrong-type', '%s instance infers %r' % (w, sig),
+                          inp=inp, observed=sig, expected=WRAPPER_SIG[w])
+    elif nat is not None and len(nat) <= 255 and max_depth(nat) <= 32:
+        # only values that HAVE a DBus type must get a signature (a typeless value may raise)
+        ctx.violation('inference-fails-on-supported-value', 'sigFromPy raises %s on a value built from the '
+                      'supported classes that has the DBus type %s' % (ob[4:], nat), inp=inp,
+                      observed=ob, expected=nat)
 
 
 def run_infer(ctx, marshal, values):
@@ -815,45 +1015,47 @@ def run_infer(ctx, marshal, values):
         ctx.impl_trace()
         ctx.case('infer', sample=lines[i][6:], nontrivial=isinstance(v, (list, tuple, dict)))
         ctx.stat('infer:top=' + type(v).__name__)
-        ctx.stat('infer:' + (ob if ob.startswith('err') else 'ok'))
-        if out is not None and out[i] != ob:
-            ctx.disagree('infer', {'op': 'infer', 'value': lines[i][6:]}, out[i], ob)
-        if ob.startswith('ok ') and builtin_only(v):
-            sig = vc.hex_str(ob[3:])
-            shape_ok = is_single(sig) or (has_empty_tuple(v) and is_single(sig.replace('()', '(y)')))
-            if len(sig) <= 255 and not shape_ok:
-                ctx.violation('inferred-signature-not-single-complete-type',
-                              'sigFromPy gives %r, which is not one complete type' % (sig,),
-                              inp={'op': 'infer', 'value': lines[i][6:]}, observed=sig, expected='one complete type')
-            w = wrapper_name(v)
-            if w and sig != WRAPPER_SIG[w]:
-                ctx.violation('wrapper-selects-wrong-type', '%s instance infers %r' % (w, sig),
-                              inp={'op': 'infer', 'value': lines[i][6:]}, observed=sig, expected=WRAPPER_SIG[w])
-        elif builtin_only(v) and not ob.startswith('ok '):
-            ctx.violation('inference-fails-on-supported-value', 'sigFromPy raises %s on a value built from the '
-                          'supported classes' % ob[4:], inp={'op': 'infer', 'value': lines[i][6:]},
-                          observed=ob, expected='a signature')
+        ctx.stat('infer:' + ('raises' if ob.startswith('err') else 'ok'))
+        inp = {'op': 'infer', 'value': lines[i][6:]}
+        typeless = builtin_only(v) and natural_sig(v) is None
+        if out is not None and not typeless and canon_err(out[i]) != canon_err(ob):
+            # (what happens to a value WITHOUT a DBus type - 2**64, a container holding one - is not compared)
+            ctx.disagree('infer', inp, out[i], ob)
+        infer_oracle(ctx, marshal, v, ob, inp)
 
 
-def run_roundtrip(ctx, marshal, values):
-    for v in values:
-        ok, info, exp = roundtrip(marshal, v)
-        ctx.case('variant-roundtrip', sample=vc.to_line(v) if ok is not None else None,
+def run_roundtrip(ctx, marshal, cases):
+    """cases: (value, replayable input, little endian?, start offset)"""
+    for v, inp, le, off in cases:
+        ok, info, exp = roundtrip(marshal, v, le, off)
+        ctx.case('variant-roundtrip', sample=inp if ok is not None else None,
                  nontrivial=ok is not None and isinstance(v, (list, tuple, dict)))
         if ok is None:
             ctx.stat('roundtrip:outside:' + info)
             continue
         ctx.impl_trace()
         ctx.stat('roundtrip:inside')
-        ctx.stat('roundtrip:inside:top=' + type(v).__name__)
+        ctx.stat('roundtrip:%s,off=%d' % ('le' if le else 'be', off))
+        ctx.stat('roundtrip:inside:top=' + (py_class(v) or '?'))
+        if isinstance(v, (list, dict, tuple)):
+            ctx.stat('roundtrip:inside:len=%s' % (len(v) if len(v) < 5 else '5..40' if len(v) <= 40 else '40+'))
         if ok is False:
-            small = shrink_roundtrip(marshal, v)
-            ok2, info2, exp2 = roundtrip(marshal, small)
+            small = shrink_roundtrip(marshal, v, le, off)
+            ok2, info2, exp2 = roundtrip(marshal, small, le, off)
             if ok2 is not False:
                 small, info2, exp2 = v, info, exp
-            key = classify_roundtrip_failure(marshal, small)
-            ctx.violation(key, 'variant round trip of %s: %s' % (repr(small)[:120], info2),
-                          inp={'op': 'roundtrip', 'value': vc.to_line(small)}, observed=info2, expected=exp2)
+            key = classify_roundtrip_failure(marshal, small, le, off)
+            try:
+                sinp = {'op': 'roundtrip', 'value': vc.to_line(small), 'le': le, 'off': off}
+            except ValueError:
+                sinp = dict(inp, le=le, off=off)
+                small = v
+            ctx.violation(key, 'variant round trip (%s endian, offset %d) of %s: %s'
+                          % ('little' if le else 'big', off, repr(small)[:120], info2),
+                          inp=sinp, observed=info2, expected=exp2)
+        if ok is not None and 'spec' in inp:
+            # subclass values have no model side: judge their inference here
+            infer_oracle(ctx, marshal, v, obs_infer(marshal, v), inp)
 
 
 def run_case(ctx, marshal, case):
@@ -866,9 +1068,18 @@ def run_case(ctx, marshal, case):
     elif op == 'infer':
         run_infer(ctx, marshal, [vc.from_line(case['value'])])
     elif op == 'roundtrip':
-        v = vc.from_line(case['value'])
-        run_infer(ctx, marshal, [v])
-        run_roundtrip(ctx, marshal, [v])
+        if 'spec' in case:
+            v = build_x(case['spec'])
+            inp = {'op': 'roundtrip', 'spec': case['spec']}
+        else:
+            v = vc.from_line(case['value'])
+            inp = {'op': 'roundtrip', 'value': case['value']}
+            run_infer(ctx, marshal, [v])
+        if 'le' in case:
+            combos = [(bool(case['le']), int(case.get('off', 0)))]
+        else:
+            combos = [(True, 0), (False, 0), (True, 3), (False, 5)]
+        run_roundtrip(ctx, marshal, [(v, inp, le, off) for le, off in combos])
 
 
 def run(ctx):
@@ -880,24 +1091,25 @@ def run(ctx):
         run_case(ctx, marshal, case)
 
     # ---- splitter
-    sigs = enum_sigs(8 if thorough else 6, 'is', 'v')
+    nlen = 8 if thorough else 7
+    sigs = enum_sigs(nlen, 'is', 'v')
     seen = set(sigs)
     sigs += [s for s in enum_sigs(5 if thorough else 3, BASIC, 'v') if s not in seen]
-    if ctx.widen:
+    if ctx.widen and not thorough:
         seen = set(sigs)
-        sigs += [s for s in enum_sigs(7, 'i', 'v') if s not in seen]
+        sigs += [s for s in enum_sigs(8, 'i', 'v') if s not in seen]
     run_split(ctx, marshal, 'split-enumerated', sigs, True)
     ctx.exhaustive = True
     ctx.note('split-enumerated: %d signatures = every valid signature of length <= %d over leaves {i,s,v} and of '
-             'length <= %d over all 14 leaf codes' % (len(sigs), 8 if thorough else 6, 5 if thorough else 3))
+             'length <= %d over all 14 leaf codes' % (len(sigs), nlen, 5 if thorough else 3))
 
-    n = ctx.scale(quick=4000, thorough=40000)
+    n = ctx.scale(quick=3000, thorough=40000)
     rsigs = [rand_sig(rng) for _ in range(n)]
     run_split(ctx, marshal, 'split-random', rsigs, True)
     for s in rsigs:
         ctx.stat('split-random:depth=%d' % max_depth(s))
 
-    n = ctx.scale(quick=8000, thorough=80000)
+    n = ctx.scale(quick=6000, thorough=80000)
     pool = sigs[:4000] + rsigs[:2000]
     bad = []
     while len(bad) < n:
@@ -906,12 +1118,14 @@ def run(ctx):
             bad.append(s)
     run_split(ctx, marshal, 'split-malformed', [s for s in bad if not _valid(s)], False)
 
-    n = ctx.scale(quick=1500, thorough=15000)
+    n = ctx.scale(quick=1200, thorough=15000)
     triples = []
     for _ in range(n):
         r = rng.random()
         pick = (lambda: rng.choice(sigs)) if r < 0.5 else (lambda: rand_sig(rng))
         t = [pick(), pick(), pick()]
+        if rng.random() < 0.15:
+            t[1] = t[0]                      # equal in / out signatures
         if rng.random() < 0.1:
             t[rng.randrange(3)] = malformed(rng, rng.choice(pool))
         triples.append(tuple(t))
@@ -919,17 +1133,39 @@ def run(ctx):
 
     # ---- inference and variant round trip
     fixed = fixed_values(marshal)
-    n = ctx.scale(quick=15000, thorough=150000)
+    n = ctx.scale(quick=9000, thorough=150000)
     vals = list(fixed)
-    for _ in range(n):
-        vals.append(g_any(rng, marshal, rng.choice([0, 1, 2, 2, 3, 4]), exotic=True))
+    for i in range(n):
+        r = i % 10
+        if r == 0:
+            vals.append(g_big(rng, marshal))
+        elif r == 1:
+            vals.append(g_deep(rng, marshal, rng.randint(4, 8)))
+        else:
+            vals.append(g_any(rng, marshal, rng.choice([0, 1, 2, 2, 3, 4]), exotic=True))
     run_infer(ctx, marshal, vals)
 
-    n = ctx.scale(quick=20000, thorough=200000)
-    rvals = list(fixed)
-    for _ in range(n):
-        rvals.append(g_any(rng, marshal, rng.choice([0, 1, 2, 2, 3, 3, 4]), exotic=False))
-    run_roundtrip(ctx, marshal, rvals)
+    n = ctx.scale(quick=12000, thorough=200000)
+    cases = []
+    combos = [(le, off) for le in (True, False) for off in range(8)]
+    for k, v in enumerate(fixed):
+        for le, off in [(True, 0), (False, 0), combos[k % 16]]:
+            cases.append((v, {'op': 'roundtrip', 'value': vc.to_line(v)}, le, off))
+    for i in range(n):
+        r = i % 10
+        le, off = rng.choice(combos) if rng.random() < 0.8 else (True, 0)
+        if r == 0:
+            v = g_big(rng, marshal)
+        elif r == 1:
+            v = g_deep(rng, marshal, rng.randint(4, 8))
+        elif r == 2:
+            spec = g_xspec(rng, marshal, 2)
+            cases.append((build_x(spec), {'op': 'roundtrip', 'spec': spec}, le, off))
+            continue
+        else:
+            v = g_any(rng, marshal, rng.choice([0, 1, 2, 2, 3, 3, 4]), exotic=False)
+        cases.append((v, {'op': 'roundtrip', 'value': vc.to_line(v)}, le, off))
+    run_roundtrip(ctx, marshal, cases)
 
 
 def max_depth(s):
